@@ -178,14 +178,14 @@ func (h *harnessT) Fatalf(f string, a ...any) {
 
 // TestPropSeqBulk: random histories, RFC 6908 bulk (port-block) log records.
 func TestPropSeqBulk(t *testing.T) {
-	vstat.Checks(1000, 25000)
+	vstat.Checks(1000, 15000)
 	dir := t.TempDir()
 	rapid.Check(t, func(rt *rapid.T) { runSeq(t, rt, dir, "seq-bulk", true) })
 }
 
 // TestPropSeqPerAllocation: random histories, per-allocation ("allocate"/"deallocate") log records.
 func TestPropSeqPerAllocation(t *testing.T) {
-	vstat.Checks(1000, 25000)
+	vstat.Checks(1000, 15000)
 	dir := t.TempDir()
 	rapid.Check(t, func(rt *rapid.T) { runSeq(t, rt, dir, "seq-per-allocation", false) })
 }
